@@ -204,6 +204,20 @@ def load_findings():
         return []
 
 
+def known_malformed_items():
+    """(module stem, item tag) pairs recorded as malformed table items (known findings of
+    C18/C02).  Checks about other mechanisms (C03, C11...) leave those items out of their
+    reference model instead of re-reporting the same root cause under another name."""
+    out = set()
+    for f in load_findings():
+        if f.get("status") == "known" and f.get("property") in ("C18", "C02"):
+            parts = f["key"].split(":")
+            if len(parts) >= 4 and parts[1] == "item" and "/" in parts[2]:
+                stem, tag = parts[2].split("/", 1)
+                out.add((stem, tag))
+    return out
+
+
 def classify(prop, key, findings):
     """Return the matching *known* finding entry (status == 'known') or None."""
     for f in findings:
